@@ -401,6 +401,22 @@ def run(pid, tier, seed, gate, replay=None):
                                                        broken=None if o else f"correspondence hybridsim/model: {m[1]} (op {m[0]}); "
                                                                               f"{len(cbad)} of {len(cs)} histories differ"))
             violations.append(dict(replay=rp, what=(o[1] if o else f"model and implementation differ: {m[1]}"), nofail=not o))
+    if pid == "C09" and not replay:
+        from . import blkcorr as B
+        C.build_ocaml()
+        brng = random.Random(seed * 17 + 3)
+        bs = [B.gen(brng) for _ in range(2500 if tier == "thorough" else 250)]
+        bres = B.check(bs)
+        bbad = [(sc, ls, m) for sc, ls, m, sk in bres if m]
+        corr = dict(block_manager_histories=len(bs), skipped=sum(1 for r in bres if r[3]), mismatches=len(bbad))
+        if bbad and not unknown:
+            sc, ls, m = min(bbad, key=lambda t: len(t[0]))
+            o = H.ORACLES[pid](sc.split("\n")[0], ls)
+            rp = C.write_replay(pid, seed, "blk", dict(property=pid, stream="hybridsim/block-manager model (hook H2)", script=sc,
+                                                      impl_obs=[l for l in ls if l.startswith("bev")],
+                                                      oracle=(dict(failed_at=o[0], what=o[1]) if o else None),
+                                                      broken=None if o else f"correspondence block manager: {m}; {len(bbad)} of {len(bs)} histories differ"))
+            violations.append(dict(replay=rp, what=(o[1] if o else f"model and implementation differ: {m}"), nofail=not o))
     if gate.get("failed") and not unknown:
         rp = C.write_replay(pid, seed, "gate", dict(property=pid, oracle=None, broken=f"Coq gate for Props/{pid}.v: {gate['failed']}",
                                                    note=f"oracle search over {len(scripts)} histories found no failing input"))
